@@ -8,4 +8,4 @@ for s in $seeds; do for id in $ids; do
   t0=$(date +%s); out=$(VERIF_SEED=$s ./check $id --tier quick 2>&1); rc=$?; t1=$(date +%s)
   echo "seed=$s $id rc=$rc wall=$((t1-t0))s $(echo "$out" | tail -1 | cut -c1-160)"
   [ $rc -ne 0 ] && echo "$out" | grep -v '^KNOWN' | tail -8 | cut -c1-400
-done; done
+done; done; exit 0
